@@ -980,6 +980,94 @@ def compare(a, b, what: str) -> dict:
     return out
 
 
+# ---------------------------------------------------------------------------------------------
+# payload oracle: numpy / pandas payloads by dtype, shape and values (== is blind to dtype)
+# ---------------------------------------------------------------------------------------------
+import hashlib  # noqa: E402
+
+_PAYLOAD_ATTRS = ("records", "measurements", "data")
+
+
+def _array_desc(a: np.ndarray):
+    try:
+        listed = str(np.asarray(a.tolist()).dtype)       # what a document that stores a nested list reads back as
+    except Exception:  # noqa: BLE001
+        listed = str(a.dtype)
+    if a.dtype.kind in "biufc":
+        digest = hashlib.sha1(np.ascontiguousarray(a).astype(np.complex128).tobytes()).hexdigest()[:12]
+    else:
+        digest = hashlib.sha1(repr(a.tolist()).encode()).hexdigest()[:12]
+    return ("ndarray", str(a.dtype), listed, tuple(a.shape), digest)
+
+
+def payload_of(v, path="", depth=0, out=None):
+    """[(path, descriptor)] for every numpy array and pandas object reachable through _json_dict_ trees,
+    containers and the public array attributes of results (records, measurements, data)."""
+    if out is None:
+        out = []
+    if depth > 40 or len(out) > 400:
+        return out
+    if isinstance(v, np.ndarray):
+        out.append((path, _array_desc(v)))
+    elif isinstance(v, pd.DataFrame):
+        vals = v.to_numpy()
+        out.append((path, ("frame", tuple(str(t) for t in v.dtypes), str(v.index.dtype),
+                           tuple(str(c) for c in v.columns), tuple(v.shape),
+                           hashlib.sha1(repr(vals.tolist()).encode()).hexdigest()[:12])))
+    elif isinstance(v, pd.Index):
+        out.append((path, ("index", str(v.dtype), len(v), hashlib.sha1(repr(list(v)).encode()).hexdigest()[:12])))
+    elif isinstance(v, (list, tuple)):
+        for i, x in enumerate(v):
+            payload_of(x, f"{path}[{i}]", depth + 1, out)
+    elif isinstance(v, dict):
+        for i, x in enumerate(v.values()):
+            payload_of(x, f"{path}{{{i}}}", depth + 1, out)
+    elif _is_cirq_obj(v):
+        for attr in _PAYLOAD_ATTRS:
+            try:
+                x = getattr(v, attr)
+            except Exception:  # noqa: BLE001
+                continue
+            if isinstance(x, (dict, np.ndarray, pd.DataFrame)):
+                payload_of(x, f"{path}<{_tname(v)}>.{attr}", depth + 1, out)
+        if hasattr(v, "_json_dict_"):
+            try:
+                d = v._json_dict_()
+            except Exception:  # noqa: BLE001
+                d = None
+            if isinstance(d, dict):
+                for k, x in d.items():
+                    payload_of(x, f"{path}<{_tname(v)}>.{k}", depth + 1, out)
+    return out
+
+
+def payload_compare(got, ref, exact: bool) -> dict:
+    """`got` (imported / copied / read from a document) against `ref` (source / paired repr).  exact: dtype must
+    be identical (pickle, copy).  Otherwise a dtype may also be the one numpy gives the listed form of the
+    reference array -- a JSON document that stores a nested list carries no dtype (complex64 -> complex128)."""
+    out = {"same": True, "where": None, "detail": None, "n": len(ref)}
+    if [p for p, _ in got] != [p for p, _ in ref]:
+        # the walk goes through _json_dict_ trees: equal values of one class have the same places
+        out.update(same=False, where="structure", detail=f"{len(got)} payloads against {len(ref)}")
+        return out
+    for (path, g), (_, r) in zip(got, ref):
+        if g[0] != r[0]:
+            out.update(same=False, where=path, detail=f"{r[0]} -> {g[0]}")
+            return out
+        if g[0] == "ndarray":
+            if g[3] != r[3]:
+                out.update(same=False, where=path, detail=f"shape {r[3]} -> {g[3]}")
+            elif g[4] != r[4]:
+                out.update(same=False, where=path, detail="values differ")
+            elif g[1] != r[1] and (exact or g[1] != r[2]):
+                out.update(same=False, where=path, detail=f"dtype {r[1]} -> {g[1]}")
+        elif g != r:
+            out.update(same=False, where=path, detail=f"{r[:-1]} -> {g[:-1]}")
+        if not out["same"]:
+            return out
+    return out
+
+
 def _nqubits(v):
     try:
         return cirq.num_qubits(v)
@@ -1262,7 +1350,8 @@ def op_copy(req):
     except Exception as e:  # noqa: BLE001
         return _unsupported_or_failure(opname, e, req["recipe"], fn)
     HELD[req["new_slot"]] = w
-    return {"unsupported": False, "verdict": compare(w, v, opname)}
+    return {"unsupported": False, "verdict": compare(w, v, opname),
+            "payload": payload_compare(payload_of(w), payload_of(v), exact=True)}
 
 
 def op_export(req):
@@ -1276,6 +1365,8 @@ def op_export(req):
     else:
         payload = _export(v, t)
     info = {"unsupported": False, "payload": payload}
+    if t != "repr":
+        info["payload_desc"] = payload_of(v)       # what the receiver's payloads are compared with
     if t in ("json", "gzip"):
         text = payload if t == "json" else gzip.decompress(payload)
         info["has_ref"] = b'"cirq_type": "REF"' in text
@@ -1304,7 +1395,10 @@ def op_import(req):
         v = _import(payload, t)
     HELD[req["slot"]] = v
     out = {"unsupported": False, "type": _tname(v), "family": derive_family(v),
-           "verdict": compare(v, fresh, "import:" + t), "behaviour": None, "idempotent": None}
+           "verdict": compare(v, fresh, "import:" + t), "behaviour": None, "idempotent": None, "payload": None}
+    if req.get("src_payload") is not None:
+        # numpy / pandas payloads against those of the very value that was exported
+        out["payload"] = payload_compare(payload_of(v), req["src_payload"], exact=t.startswith("pickle"))
     if t in ("json", "gzip"):
         text = payload if t == "json" else gzip.decompress(payload)
         again = _sut("import:" + t + ":re-export", cirq.to_json, v).encode("utf-8")
@@ -1420,6 +1514,7 @@ def op_corpus_read(req):
     robj = _sut("corpus:eval-repr", eval, rtext, dict(EVAL_GLOBALS), {})
     out = {"eq": _sut("corpus:eq", _eq, jobj, robj), "outward": None, "type": _tname(jobj),
            "family": derive_family(jobj), "cirq_top": _cirq_top(jobj)}
+    out["payload"] = payload_compare(payload_of(jobj), payload_of(robj), exact=False)
     if not inward:
         again = _sut("corpus:to_json", cirq.to_json, robj)
         out["outward"] = (json.loads(again) == json.loads(jtext))
